@@ -37,6 +37,20 @@ func build(decls, body string, frag bool) string {
 	return program(decls, body)
 }
 
+// plainPos is the plainest position of every expression type: an expression
+// that is already mis-formatted there explains its failures elsewhere.
+var plainPos = map[string]string{"int": "call-arg", "bool": "call-arg-bool", "str": "call-arg-str", "ints": "define-ints", "map": "define-map"}
+
+func typeOf(prod string) string {
+	for _, p := range productions {
+		if p.name == prod {
+			return p.typ
+		}
+	}
+
+	return ""
+}
+
 // exprItems: every expression in every position of its type.
 func exprItems(thorough bool) []item {
 	var out []item
@@ -50,9 +64,18 @@ func exprItems(thorough bool) []item {
 			}
 
 			for _, frag := range []bool{false, true} {
+				if frag && !thorough && !pos.quick && pos.name != plainPos[e.typ] {
+					continue
+				}
+
+				var ex []string
+				if pos.name != plainPos[e.typ] {
+					ex = []string{"expr/" + e.name + "@" + plainPos[e.typ] + "/" + form(frag)}
+				}
+
 				out = append(out, item{
 					family: "expr", name: "expr/" + e.name + "@" + pos.name + "/" + form(frag),
-					cell: e.class + "@" + pos.class, src: build("", strings.ReplaceAll(pos.src, "§", e.src), frag), frag: frag,
+					cell: e.class + "@" + pos.class, explain: ex, src: build("", strings.ReplaceAll(pos.src, "§", e.src), frag), frag: frag,
 					size: len(e.src) + len(pos.src), nontriv: true,
 				})
 			}
@@ -94,7 +117,11 @@ func exprItems(thorough bool) []item {
 					continue
 				}
 
-				ex := []string{"expr/" + e.parts[0] + "@" + pos.name + "/" + form(frag)}
+				ex := []string{
+					"expr/" + e.parts[0] + "@" + pos.name + "/" + form(frag),
+					"expr/" + e.parts[0] + "@" + plainPos[e.typ] + "/" + form(frag),
+					"expr/" + e.parts[1] + "@" + plainPos[typeOf(e.parts[1])] + "/" + form(frag),
+				}
 
 				// the inner production in the positions of this position's class
 				for _, p2 := range positions {
@@ -114,7 +141,7 @@ func exprItems(thorough bool) []item {
 				out = append(out, item{
 					family: "expr2", name: "expr/" + e.name + "@" + pos.name + "/" + form(frag),
 					cell: e.class + "(" + inner + ")@" + pos.class, explain: ex,
-					src:  build("", strings.ReplaceAll(pos.src, "§", e.src), frag), frag: frag,
+					src: build("", strings.ReplaceAll(pos.src, "§", e.src), frag), frag: frag,
 					size: 1000 + len(e.src) + len(pos.src), nontriv: true,
 				})
 			}
@@ -148,7 +175,7 @@ func stmtItems(thorough bool) []item {
 			for _, frag := range []bool{false, true} {
 				out = append(out, item{
 					family: "stmt", name: "stmt/" + f.name + "@" + ctx.name + "/" + form(frag),
-					cell: "stmt-" + f.name + "@" + ctx.class, src: build("", seqBody([]stmtForm{f}, ctx), frag), frag: frag,
+					cell: "stmt-" + f.class + "@" + ctx.class, src: build("", seqBody([]stmtForm{f}, ctx), frag), frag: frag,
 					size: len(f.src) + len(ctx.src), nontriv: true,
 				})
 			}
@@ -227,8 +254,23 @@ func declItems(thorough bool) []item {
 		}
 	}
 
+	repDecl := map[string]bool{}
+	seenDecl := map[string]bool{}
+
+	for _, d := range declForms {
+		if !seenDecl[d.class] {
+			seenDecl[d.class] = true
+			repDecl[d.name] = true
+		}
+	}
+
 	for _, d1 := range declForms {
 		for _, d2 := range declForms {
+			// quick: pairs inside one class and pairs of class representatives
+			if !thorough && d1.class != d2.class && !(repDecl[d1.name] && repDecl[d2.name]) {
+				continue
+			}
+
 			for _, frag := range []bool{false, true} {
 				if frag && !thorough {
 					continue
@@ -312,7 +354,7 @@ func commentItems(thorough bool) []item {
 					continue
 				}
 
-				if !thorough && (a.form == "multiline-block-after" || b.form == "multiline-block-after") && a.g != b.g {
+				if !thorough && (a.form == "multiline-block-after" || b.form == "multiline-block-after" || a.form == "block-before" || b.form == "block-before") {
 					continue
 				}
 
